@@ -10,7 +10,7 @@ import scen
 import models
 import tlcgen
 
-VERIF = "/verif"
+VERIF = os.path.dirname(os.path.dirname(os.path.abspath(__file__)))   # /verif, or a snapshot of it
 KF_FILE = os.path.join(VERIF, "known_findings.json")
 
 ASSUMPTIONS = [
